@@ -45,9 +45,9 @@ DEV_TEXT = {
     'silent_refusal': 'an empty or unparsable `query` is answered with status 200 and an empty body (the handler only logs and returns)',
 }
 
-INV_ANY = ('TypeOK FutureNotSkipped OldNeverDelivered OnlyStoredLines '
+INV_ANY = ('TypeOK OldNeverDelivered OnlyStoredLines '
            'ServiceStopsAfterHandler DrainerOnlyAfterHandler ClosedOnlyByService RefusedStartsNothing')
-INV_SPEC = INV_ANY + ' NoDuplicate DueDelivered NoBadFrame RefusalIsAnError NothingAsCoded'
+INV_SPEC = INV_ANY + ' NoDuplicate DueDelivered FutureNotSkipped NoBadFrame RefusalIsAnError NothingAsCoded'
 LIVE = 'NoFrameAfterReturn Termination SenderNeverStuck ClosedEndsHandler EventuallyDelivered'
 LIVE_ASCODED = 'NoFrameAfterReturn Termination SenderNeverStuck'
 
